@@ -49,23 +49,53 @@ Corollary C12_on_generated cmp l h v :
 Proof. intros H1 H2 H3 Hs Hh. rewrite insert_hint_tv by assumption. f_equal. apply hint_is_hint; assumption. Qed.
 
 (* ---- the other regenerated FlatSet members: insert_val (the primitive [set_insert] of insert_hint), find, erase(key) ------ *)
-Lemma lower_bound_full cmp l v : lower_bound cmp l 0 (Z.of_nat (length l)) v = Z.of_nat (lb cmp l v).
-Proof. change 0 with (Z.of_nat 0). rewrite lower_bound_nat, firstn_all. reflexivity. Qed.
+Lemma lower_bound_full cmp l v : lower_bound cmp l 0 (vlen l) v = Z.of_nat (lb cmp l v).
+Proof. unfold vlen. change 0 with (Z.of_nat 0). rewrite lower_bound_nat, firstn_all. reflexivity. Qed.
+Lemma eqb_vlen a l : (Z.of_nat a =? vlen l) = Nat.eqb a (length l). Proof. apply eqb_nat. Qed.
 
 Theorem insert_val_tv cmp l v :
   insert_val_gen cmp l v = (fst (insert_val cmp l v), Z.of_nat (snd (insert_val cmp l v)),
                             Nat.eqb (lb cmp l v) (length l) || cmp v (nth (lb cmp l v) l 0)).
-Proof. unfold insert_val_gen, insert_val. cbv zeta. rewrite lower_bound_full, eqb_nat, deref_nat.
+Proof. unfold insert_val_gen, insert_val. cbv zeta. rewrite lower_bound_full, eqb_vlen, deref_nat.
   destruct (Nat.eqb (lb cmp l v) (length l) || cmp v (nth (lb cmp l v) l 0)); [rewrite vec_insert_nat|]; reflexivity. Qed.
 (* so the primitive used by the regenerated insert_hint is the regenerated insert_val *)
 Corollary set_insert_is_generated cmp l v : set_insert cmp l v = (fst (fst (insert_val_gen cmp l v)), snd (fst (insert_val_gen cmp l v))).
 Proof. rewrite insert_val_tv. unfold set_insert. destruct (insert_val cmp l v); reflexivity. Qed.
 
 Theorem find_tv cmp l v : find_gen cmp l v = Z.of_nat (SetModel.fs_find cmp l v).
-Proof. unfold find_gen, SetModel.fs_find. cbv zeta. rewrite lower_bound_full, eqb_nat, deref_nat.
+Proof. unfold find_gen, SetModel.fs_find. cbv zeta. rewrite lower_bound_full, eqb_vlen, deref_nat.
   destruct (Nat.eqb (lb cmp l v) (length l) || cmp v (nth (lb cmp l v) l 0)); reflexivity. Qed.
 
 Theorem erase_key_tv cmp l v :
   erase_key_gen cmp l v = (fst (SetModel.fs_erase_key cmp l v), Z.of_nat (snd (SetModel.fs_erase_key cmp l v))).
-Proof. unfold erase_key_gen, SetModel.fs_erase_key. cbv zeta. rewrite find_tv, eqb_nat.
+Proof. unfold erase_key_gen, SetModel.fs_erase_key. cbv zeta. rewrite find_tv, eqb_vlen.
   destruct (Nat.eqb (SetModel.fs_find cmp l v) (length l)); [reflexivity|]. unfold vec_erase, SetModel.remove_at. rewrite Nat2Z.id. reflexivity. Qed.
+
+(* ---- bulk insertion: insert(first, last) = append + stable_sort of the new part + inplace_merge + eraseDuplicates ---------- *)
+Lemma erase_unique_uniq cmp l : erase_unique (fun v1 v2 => negb (cmp v1 v2) && negb (cmp v2 v1)) l = SetModel.uniq cmp l.
+Proof. induction l as [|x t IH]; [reflexivity|]. cbn [erase_unique SetModel.uniq]. rewrite IH. reflexivity. Qed.
+Theorem erase_duplicates_tv cmp l : erase_duplicates_gen cmp l = SetModel.uniq cmp l.
+Proof. unfold erase_duplicates_gen. cbv zeta. apply erase_unique_uniq. Qed.
+
+Lemma sinsert_length cmp x l : length (SetModel.sinsert cmp x l) = S (length l).
+Proof. induction l as [|y t IH]; [reflexivity|]. cbn [SetModel.sinsert]. destruct (cmp y x); cbn [length]; [rewrite IH|]; reflexivity. Qed.
+Lemma ssort_length cmp l : length (SetModel.ssort cmp l) = length l.
+Proof. unfold SetModel.ssort. induction l as [|x t IH]; [reflexivity|]. cbn [fold_right length]. rewrite sinsert_length, IH. reflexivity. Qed.
+
+Lemma fa (l x : list Z) : firstn (length l) (l ++ x) = l.
+Proof. rewrite firstn_app, Nat.sub_diag, firstn_all. cbn [firstn]. apply app_nil_r. Qed.
+Lemma sa (l x : list Z) : skipn (length l) (l ++ x) = x.
+Proof. rewrite skipn_app, skipn_all, Nat.sub_diag. reflexivity. Qed.
+Lemma sort_tail cmp l vs : stable_sort_range cmp (l ++ vs) (Z.of_nat (length l)) (vlen (l ++ vs)) = l ++ SetModel.ssort cmp vs.
+Proof. unfold stable_sort_range, sub, vlen. rewrite !Nat2Z.id, app_length.
+  replace (Z.to_nat (Z.of_nat (length l + length vs) - Z.of_nat (length l))) with (length vs) by lia.
+  rewrite fa, sa, firstn_all. rewrite skipn_all2 by (rewrite app_length; lia). rewrite app_nil_r. reflexivity. Qed.
+Lemma merge_halves cmp l s : inplace_merge_range cmp (l ++ s) 0 (Z.of_nat (length l)) (vlen (l ++ s)) = SetModel.smerge cmp l s.
+Proof. unfold inplace_merge_range, sub, vlen. rewrite !Nat2Z.id, app_length. cbn [Z.to_nat firstn skipn app].
+  replace (Z.to_nat (Z.of_nat (length l) - 0)) with (length l) by lia.
+  replace (Z.to_nat (Z.of_nat (length l + length s) - Z.of_nat (length l))) with (length s) by lia.
+  rewrite fa, sa, firstn_all. rewrite skipn_all2 by (rewrite app_length; lia). rewrite app_nil_r. reflexivity. Qed.
+
+Theorem insert_range_tv cmp l vs : insert_range_gen cmp l vs = SetModel.fs_bulk cmp l vs.
+Proof. unfold insert_range_gen, SetModel.fs_bulk, vec_append. cbv zeta. rewrite erase_duplicates_tv. f_equal.
+  rewrite sort_tail. apply merge_halves. Qed.
